@@ -248,7 +248,48 @@ PROP_POOL_VALID = [["prop1", "plain"], ["count_it", "int"], ["some_ref", "ref"],
 PROP_POOL_BAD_NAME = [["q", "plain"], ["aB", "plain"], ["a b", "plain"], ["a-b", "plain"], ["ab", "int"],
                       ["Abc", "plain"], ["1abc", "plain"], ["_abc", "plain"], ["abc\n", "plain"], ["p" * 251, "plain"],
                       ["abé", "plain"]]
-PROP_POOL_BAD_REF = [["foo_ref", "plain"], ["foo_refs", "reflist_wrong"], ["bar_refs", "plain"], ["baz_ref", "reflist"]]
+PROP_POOL_BAD_REF = [["foo_ref", "plain"], ["foo_refs", "reflist_wrong"], ["bar_refs", "plain"], ["baz_ref", "reflist"],
+                     ["src_host_ref", "plain"], ["x_owner_ref", "int"], ["related_host_refs", "listplain"],
+                     ["a_b_c_refs", "reflist_wrong"], ["x_my_host_ref", "reflist"]]
+
+# the _ref / _refs rule of _validate_ref_props looks at what follows the LAST underscore: names with 0..3 underscores,
+# the suffix at the end, in the middle and at the front
+REF_RULE_NAMES = ["ref", "refs", "hostref", "hostrefs",
+                  "host_ref", "host_refs", "ref_host", "refs_host", "host_reference", "x_ref", "x_refs",
+                  "src_host_ref", "x_owner_ref", "related_host_refs", "x_more_refs", "a_ref_b", "a_refs_b", "ref_a_ref", "x_ref_refs",
+                  "x_my_host_ref", "a_b_c_refs", "a_ref_b_c", "a_b_ref_c", "ref_a_b_refs"]
+REF_RULE_KINDS = ["plain", "int", "listplain", "ref", "reflist", "objref", "objreflist"]
+
+
+def ref_rule_ok(name, kind, obs20):
+    """registration._validate_ref_props, restated: the text after the last underscore decides."""
+    tail = name.rsplit("_", 1)[-1]
+    if tail == "ref":
+        return kind == ("objref" if obs20 else "ref")
+    if tail == "refs":
+        return kind == ("objreflist" if obs20 else "reflist")
+    return True
+
+
+def gen_ref_grid(run, first_id, thorough):
+    """One history per registration kind and version: registrations of fresh type names, each with one property of
+    the grid REF_RULE_NAMES x REF_RULE_KINDS (all of it in the thorough tier, a sample in the quick tier)."""
+    rng = run.rng
+    grid = [(n, k) for n in REF_RULE_NAMES for k in REF_RULE_KINDS]
+    out = []
+    for kind in KIND_CAT:
+        for ver in ("2.0", "2.1"):
+            pairs = grid if thorough else rng.sample(grid, 26)
+            ops = []
+            for j, (pn, pk) in enumerate(pairs):
+                name = "x-rr%d-%s" % (j, gen_valid_type(rng)) + ("-ext" if kind == "extension" else "")
+                ops.append({"op": "reg", "kind": kind, "ver": ver, "name": name, "cls": "R%d" % j,
+                            "props": [["prop1", "plain"], [pn, pk]]})
+                if j % 9 == 0:
+                    ops.append({"op": "cft", "name": name, "ver": ver, "cat": KIND_CAT[kind]})
+            ops.append({"op": "tables"})
+            out.append({"k": "history", "id": first_id + len(out), "ops": ops})
+    return out
 BAD_TYPE_NAMES = ["x_bad", "X-up", "ab", "x--double", "x-nl\n", "7x-lead", "-lead", "x-" + "a" * 249, "a b", "x-é"]
 BUILTIN_NAMES = {"object": ["identity", "malware", "bundle"], "observable": ["file", "ipv4-addr", "url"],
                  "marking": ["tlp", "statement"], "extension": ["archive-ext", "ntfs-ext"]}
@@ -525,6 +566,13 @@ def oracle_history(case, obs, builtin):
                     if not prop_must(p[0]):
                         viol("property name %r (%s %s %r) breaks the naming rule and was accepted"
                              % (p[0], o["ver"], o["kind"], o["name"]), i, classify_prop_name(p[0], o["ver"]), tag="bad-prop-accepted")
+                obs20 = o["kind"] == "observable" and o["ver"] == "2.0"
+                final = dict((p[0], p[1]) for p in o["props"])              # a repeated name keeps its last value
+                for pn, pk in final.items():
+                    if not ref_rule_ok(pn, pk, obs20):
+                        viol("property %r of kind %s (%s %s %r) is named like a reference%s property but is not one, and was "
+                             "accepted" % (pn, pk, o["ver"], o["kind"], o["name"], " list" if pn.endswith("s") else ""), i,
+                             tag="bad-ref-accepted")
                 taken.setdefault(key, "stix2.custom." + o["cls"])
                 if side:
                     taken.setdefault(side, ANY)
@@ -1027,7 +1075,8 @@ def check(run):
     run.coverage["rule"] = (
         "registration histories of 2..8 decorator calls (4 kinds x 2 versions; names drawn from a per-history pool so that "
         "duplicates, cross-version and cross-category reuse, built-in names, invalid type names, invalid property names, "
-        "reference-name/kind mismatches, extension_type and extension_name= occur) interleaved with class_for_type / parse "
+        "reference-name/kind mismatches (also a grid of names with 0..3 underscores x 7 property kinds, one history per "
+        "registration kind and version), extension_type and extension_name= occur) interleaved with class_for_type / parse "
         "/ parse_observable / marking / extension lookups aimed at the names used and at the other version; each history in "
         "a fresh interpreter and on the model (non-trivial: at least one successful registration and one lookup). Name "
         "strings (valid, one bad character, hyphen/underscore structure, length boundaries 0..300, leading character, final "
@@ -1213,6 +1262,7 @@ def check(run):
 
     # ---- histories
     hcases = [gen_history(run, i) for i in range(n_hist)]
+    hcases += gen_ref_grid(run, n_hist, thorough)       # the _ref / _refs rule: names x property kinds x registration kinds x versions
     hres = run_histories(hcases)
     stats = {"reg_ok": 0, "reg_dup": 0, "reg_value": 0, "reg_other": 0, "lookups": 0, "lookup_cls": 0}
     good = []
